@@ -1,7 +1,6 @@
 package main
 
 import (
-	"regexp"
 	"encoding/json"
 	"fmt"
 	"github.com/valinurovam/garagemq/admin"
@@ -10,7 +9,9 @@ import (
 	"net/http"
 	"net/http/httptest"
 	"os"
+	"regexp"
 	"runtime"
+	"runtime/pprof"
 	"sort"
 	"strconv"
 	"strings"
@@ -49,22 +50,22 @@ type stepResult struct {
 }
 
 type session struct {
-	gateParked  <-chan struct{} // ARM: a yield point of the broker is armed; the goroutine that reaches it parks there
-	gateRelease func()
-	gateInflight, gatePending int64 // what the parked goroutine keeps counted while it is parked
-	beforeStop bool // see quiesce
-	genTags  map[string]string // server-made consumer tag ("<unix time>_<id>") -> canonical name, in order of appearance
-	genReal  map[string]string // canonical name -> real tag
-	connBase uint64 // connections opened before the last restart: the new server numbers its connections from 1 again
-	rawSent  int
-	rawCount int
-	cfg      sessionCfg
-	srv      *server.Server
-	addr     string
-	clients  map[int]*client
-	gone     map[int]bool // connections the harness expects the broker to have forgotten
-	nconn    int
-	settle   time.Duration
+	gateParked                <-chan struct{} // ARM: a yield point of the broker is armed; the goroutine that reaches it parks there
+	gateRelease               func()
+	gateInflight, gatePending int64             // what the parked goroutine keeps counted while it is parked
+	beforeStop                bool              // see quiesce
+	genTags                   map[string]string // server-made consumer tag ("<unix time>_<id>") -> canonical name, in order of appearance
+	genReal                   map[string]string // canonical name -> real tag
+	connBase                  uint64            // connections opened before the last restart: the new server numbers its connections from 1 again
+	rawSent                   int
+	rawCount                  int
+	cfg                       sessionCfg
+	srv                       *server.Server
+	addr                      string
+	clients                   map[int]*client
+	gone                      map[int]bool // connections the harness expects the broker to have forgotten
+	nconn                     int
+	settle                    time.Duration
 }
 
 func init() {
@@ -286,6 +287,9 @@ func (s *session) quiesce() string {
 	for {
 		snap, ok := s.snapshot(false)
 		if !ok {
+			if os.Getenv("VERIF_DUMP_ON_WEDGE") != "" {
+				_ = pprof.Lookup("goroutine").WriteTo(os.Stderr, 2)
+			}
 			return "WEDGED(snapshot blocked)"
 		}
 		inflight, pending := snap.Inflight, snap.Pending
